@@ -1557,12 +1557,14 @@ class Data(BaseCartesianData):
 
             comp._data = data
 
+        # cached masks depend on the values, and need to be invalidated before
+        # anything reacts to the change
+        clear_all_caches()
+
         # alert hub of the change
         if self.hub is not None:
             msg = NumericalDataChangedMessage(self, components_changed=list(mapping.keys()))
             self.hub.broadcast(msg)
-
-        clear_all_caches()
 
     def update_values_from_data(self, data):
         """
@@ -1628,12 +1630,14 @@ class Data(BaseCartesianData):
         # Update data coordinates
         self.coords = data.coords
 
+        # cached masks depend on the values, and need to be invalidated before
+        # anything reacts to the change
+        clear_all_caches()
+
         # alert hub of the change
         if self.hub is not None:
             msg = NumericalDataChangedMessage(self)
             self.hub.broadcast(msg)
-
-        clear_all_caches()
 
     # The following are methods for accessing the data in various ways that
     # can be overriden by subclasses that want to improve performance.
